@@ -337,6 +337,12 @@ def _same_stmt_rhs(rd, bl):
 
 # -------------------------------------------------------------------------------------------------------- interpreter
 
+def _is_path(e):
+    while isinstance(e, (ast.Subscript, ast.Attribute)):
+        e = e.value
+    return isinstance(e, ast.Name)
+
+
 class _State:
     __slots__ = ('env', 'guards', 'ctx', 'depth')
 
@@ -381,7 +387,13 @@ class Summarizer:
             if a is None:
                 gs.append(g)
             else:
-                gs.extend(canon(c) for c in conjuncts(hoist(a)))
+                for c in conjuncts(hoist(a)):
+                    t = canon(c)
+                    if t not in self.negof:
+                        nt = canon(neg_ast(c))
+                        self.negof[t] = nt
+                        self.negof.setdefault(nt, t)
+                    gs.append(t)
         self.effects.append(Effect(kind, text, gs, st.ctx, node, hoist(lhs), hoist(rhs), op))
 
     def guard(self, node):
@@ -483,6 +495,10 @@ class Summarizer:
             self.expand_comp(sym, value_node, s2, node)
             return [s2]
         vv = self.val(value_node, st)
+        if name in self.cells and name not in self.cell_sym and _is_path(vv) and not self._rebound_in_loop(name):
+            # an alias of (part of) an existing object, e.g. `row = table[key]`: no new object
+            s2.env[name] = vv
+            return [s2]
         if name in self.cells:
             if name not in self.cell_sym:
                 self.new_cell(name, canon(vv), s2, node)
@@ -493,6 +509,13 @@ class Summarizer:
         else:
             s2.env[name] = vv
         return [s2]
+
+    def _rebound_in_loop(self, name):
+        n = 0
+        for x in _walk_own(self.fnode):
+            if isinstance(x, ast.Name) and x.id == name and isinstance(x.ctx, ast.Store):
+                n += 1
+        return n > 1
 
     def new_cell(self, name, init_text, st, node):
         if name in self.cell_sym:
@@ -520,8 +543,17 @@ class Summarizer:
                         nxt.extend(self.bind_target(te, ve, s, node))
                     states = nxt
                 return states
+            star = [i for i, te in enumerate(t.elts) if isinstance(te, ast.Starred)]
             for i, te in enumerate(t.elts):
-                sub = ast.Subscript(value=clone(vnode), slice=ast.Constant(value=i), ctx=ast.Load())
+                if isinstance(te, ast.Starred):
+                    after = len(t.elts) - i - 1
+                    sl = ast.Slice(lower=ast.Constant(value=i) if i else None, upper=ast.Constant(value=-after) if after else None)
+                    sub = ast.Subscript(value=clone(vnode), slice=sl, ctx=ast.Load())
+                    te = te.value
+                elif star and i > star[0]:
+                    sub = ast.Subscript(value=clone(vnode), slice=ast.Constant(value=i - len(t.elts)), ctx=ast.Load())
+                else:
+                    sub = ast.Subscript(value=clone(vnode), slice=ast.Constant(value=i), ctx=ast.Load())
                 nxt = []
                 for s in states:
                     nxt.extend(self.bind_target(te, sub, s, node))
@@ -647,8 +679,14 @@ class Summarizer:
                 for nm in names:
                     va, vb = ra[0].env.get(nm), rb[0].env.get(nm)
                     if va is None or vb is None:
-                        # bound on one side only: keep that binding guarded by the test (reads on the other side are errors anyway)
-                        m.env[nm] = va if va is not None else vb
+                        # bound on one side only: the other side keeps the previous value (a parameter / outer name)
+                        prev = st.env.get(nm, ast.Name(id=nm, ctx=ast.Load()))
+                        va = va if va is not None else prev
+                        vb = vb if vb is not None else prev
+                    if norm(va) == norm(vb):
+                        m.env[nm] = va
+                    elif False:
+                        pass
                     elif norm(va) == norm(vb):
                         m.env[nm] = va
                     else:
@@ -724,17 +762,70 @@ class Summarizer:
             for i, e in enumerate(t.elts):
                 self._bind_loop_target(e, ast.Subscript(value=clone(sym), slice=ast.Constant(value=i), ctx=ast.Load()), st)
 
+    def _merge_complementary(self, effects):
+        """two effects that differ only by one complementary guard are one effect without that guard"""
+        out = list(effects)
+        changed = True
+        while changed:
+            changed = False
+            for i in range(len(out)):
+                for j in range(i + 1, len(out)):
+                    a, b = out[i], out[j]
+                    if a.kind == b.kind and a.text == b.text and a.ctx == b.ctx and a.kind != 'new':
+                        da, db = a.guards - b.guards, b.guards - a.guards
+                        if len(da) == 1 and len(db) == 1 and self.negof.get(next(iter(da))) == next(iter(db)):
+                            m = Effect(a.kind, a.text, a.guards & b.guards, a.ctx, a.node, a.lhs, a.rhs, a.op)
+                            out = [e for k, e in enumerate(out) if k not in (i, j)] + [m]
+                            changed = True
+                            break
+                if changed:
+                    break
+        return out
+
     def summarize(self):
         st = _State({}, [], [], 0)
         body = list(self.fnode.body)
         end = self.run(body, [st])
         for s in end:
             self.effects.append(Effect('fall', 'None', s.guards, s.ctx, self.fnode))
+        self.effects = _fold_setdefault(self.effects)
+        self.effects = self._merge_complementary(self.effects)
         # de-duplicate
         seen = {}
         for e in self.effects:
             seen.setdefault(e.key(), e)
         return list(seen.values())
+
+
+def _fold_setdefault(effects):
+    """`if k in D: D[k].add(x) else: D[k] = {x}`  ->  `D.setdefault(k, set()).add(x)`  (likewise lists)"""
+    out = list(effects)
+    for st in list(out):
+        if st.kind != 'store' or st.op != '=' or not isinstance(st.lhs, ast.Subscript):
+            continue
+        v = st.rhs
+        if isinstance(v, ast.Set) and len(v.elts) == 1:
+            meth, empty, x = 'add', 'set()', v.elts[0]
+        elif isinstance(v, ast.List) and len(v.elts) == 1:
+            meth, empty, x = 'append', '[]', v.elts[0]
+        else:
+            continue
+        d, k = canon(st.lhs.value), canon(st.lhs.slice)
+        gpos, gneg = f'{k} in {d}', f'{k} not in {d}'
+        if gneg not in st.guards:
+            continue
+        for c in out:
+            if c.kind == 'call' and c.op == meth and c.ctx == st.ctx and c.lhs is not None and canon(c.lhs) == f'{d}[{k}]' \
+                    and c.rhs is not None and canon(c.rhs) == canon(x) and gpos in c.guards \
+                    and (c.guards - {gpos}) == (st.guards - {gneg}):
+                recv = ast.parse(f'D.setdefault(K, {empty})', mode='eval').body
+                recv.func.value = clone(st.lhs.value)
+                recv.args[0] = clone(st.lhs.slice)
+                call = ast.Call(func=ast.Attribute(value=recv, attr=meth, ctx=ast.Load()), args=[clone(x)], keywords=[])
+                new = Effect('call', canon(call), c.guards - {gpos}, c.ctx, c.node, recv, clone(x), meth)
+                out = [e for e in out if e is not c and e is not st] + [new]
+                break
+    return out
 
 
 _CACHE = {}
@@ -773,28 +864,49 @@ def select(effects, kind=None, contains=None, ctx_contains=None):
 
 # ------------------------------------------------------------------------------------------ inlining of simple helpers
 
-def _simple_body(fn):
-    """(params, defaults, return expr with the helper's own straight-line locals inlined) for a function whose body is
-    [docstring] [straight-line assignments to plain names] `return <expr>` - else None."""
-    body = list(fn.body)
-    if body and isinstance(body[0], ast.Expr) and isinstance(body[0].value, ast.Constant) and isinstance(body[0].value.value, str):
-        body = body[1:]
-    if not body or not isinstance(body[-1], ast.Return) or body[-1].value is None:
-        return None
-    if fn.args.vararg or fn.args.kwarg or fn.decorator_list:
-        return None
-    env = {}
-    for st in body[:-1]:
+def _as_expr(stmts, env):
+    """the value returned by a loop-free statement list made of plain assignments, if/elif/else and returns, as one
+    (conditional) expression - or None"""
+    env = dict(env)
+    for i, st in enumerate(stmts):
+        if isinstance(st, ast.Expr) and isinstance(st.value, ast.Constant):
+            continue
         if isinstance(st, ast.Assign) and len(st.targets) == 1 and isinstance(st.targets[0], ast.Name):
             env[st.targets[0].id] = subst(st.value, env)
         elif isinstance(st, ast.AnnAssign) and isinstance(st.target, ast.Name) and st.value is not None:
             env[st.target.id] = subst(st.value, env)
+        elif isinstance(st, ast.Return):
+            if st.value is None:
+                return None
+            return subst(st.value, env)
+        elif isinstance(st, ast.If):
+            rest = list(stmts[i + 1:])
+            a = _as_expr(list(st.body) + rest, env)
+            b = _as_expr(list(st.orelse) + rest, env)
+            if a is None or b is None:
+                return None
+            if norm(a) == norm(b):
+                return a
+            return ast.IfExp(test=subst(st.test, env), body=a, orelse=b)
         else:
             return None
-    for n in ast.walk(body[-1].value):
-        if isinstance(n, (ast.Yield, ast.YieldFrom, ast.Await, ast.NamedExpr)):
+    return None
+
+
+def _simple_body(fn):
+    """(params, defaults, returned expression) for a side-effect-free helper: [docstring], plain assignments, if/elif/else and
+    returns only (early returns become conditional expressions) - else None."""
+    if fn.args.vararg or fn.args.kwarg or fn.decorator_list:
+        return None
+    for n in ast.walk(fn):
+        if isinstance(n, (ast.Yield, ast.YieldFrom, ast.Await, ast.NamedExpr, ast.For, ast.While, ast.Try, ast.With, ast.Raise)):
             return None
-    ret = subst(body[-1].value, env)
+    ret = _as_expr(list(fn.body), {})
+    if ret is None:
+        return None
+    if isinstance(ret, (ast.ListComp, ast.SetComp, ast.DictComp, ast.GeneratorExp)):
+        # a helper that builds a collection may equally be written as a loop: keep the call symbolic in both spellings
+        return None
     a = fn.args
     params = [p.arg for p in a.posonlyargs + a.args]
     defaults = dict(zip(params[len(params) - len(a.defaults):], a.defaults))
